@@ -216,6 +216,25 @@ def native_enumeration(tier):
             try_cid([["d", "format", "delimited"], ["f", "x"], row], "%s check with column %d = %r" % (check, col, h))
     samples.append(dict(query="native/hostile-cid-cells", cases=n[0], pool=len(HOSTILE)))
 
+    # check rules whose evaluation depends on the data: loading, reading and closing raise cutplace errors only
+    rules = ["x / (count - 3) < 5", "x < (1 / (count - 1))", "x < [1, 2][count]", "x ** -count < 2", "x < '3'[count]",
+             "x % (2 - count) == 0", "x < {0: 1}[count]", "x > 0 and count / (count - 2) > 0", "x >= 0", "x < 3"]
+    for rule in rules:
+        for nvalues in range(0, 5):
+            n[0] += 1
+            try:
+                cid = interface.Cid()
+                cid.read("<hostile>", [["d", "format", "delimited"], ["f", "x"], ["c", "c1", "DistinctCount", rule]])
+                datarows = "".join("v%d\n" % i for i in range(nvalues))
+                for mode in ("yield", "raise"):
+                    list(validio.rows(cid, io.StringIO(datarows), on_error=mode))
+                validio.validate(cid, io.StringIO(datarows))
+            except errors.CutplaceError:
+                pass
+            except Exception as e:  # noqa
+                fail("check-rule-internal-error", "DistinctCount rule %r with %d distinct values raised %s: %s" % (
+                    rule, nvalues, type(e).__name__, e), rule=rule, values=nvalues)
+                break
     # data cells through the real callees
     alph = {"Integer": "0123456789+-_ ", "Decimal": "NanIif+-.,eE_01 ", "DateTime": "0123.: ", "Choice": "abc, ", "RegEx": "abc(",
             "Pattern": "a?*[", "Text": "a ", "Constant": "ab"}
@@ -329,6 +348,13 @@ def build(tier, seed):
                            "%s field (%s): every cell up to 3 characters; the C callee produces every documented outcome "
                            "(exception, any finite value, %s)" % (decl[0], fmt, ", ".join(SPECIALS)), budget_s=600,
                            per_path_timeout=60, replay=rp, functions=FUNCS, stubs=("S-INT / S-DEC with special values / S-STRP", "S-FMT")))
+    from props.c13 import make as make_fixed, DELIMS
+    for widths, d, ml in (((1,), "any", 7), ((1, 2), "any", 7), ((2,), "crlf", 6), ((1, 1), "none", 5)):
+        mk, rp = make_fixed(list(widths), DELIMS[d], ml)
+        q.append(Query("C10/fixed-rows/widths=%s/%s/len<=%d" % ("-".join(map(str, widths)), d, ml), "fixed-errors", mk,
+                       "real fixed_rows, widths %r, delimiter %s, every Unicode text up to %d characters: DataFormatError or "
+                       "rows, nothing else (same harness as C13)" % (widths, d, ml), budget_s=300, replay=rp, functions=FUNCS,
+                       stubs=("S-STREAM", "S-FMT")))
     q.append(Query("C10/exit-code-mapping", "exit-code", make_exit_code(),
                    "applications.main: the CID loader or the reader raises InterfaceError / DataError / CheckError / OSError / "
                    "ValueError / KeyError", budget_s=120, expect=("cutplace-error", "environment", "internal"),
